@@ -67,7 +67,7 @@ def replay_udp_bytes(data):
 
 
 INVALID = [b'\x80', b'\xff', b'\xc3', b'\xc3(', b'a\xe2\x82 1 2', b'm\xff 1 2', b'\xf0\x9f 3 4', b'm 1\xfe 2', b'\xed\xa0\x80 1 2',
-           b'm 1 2\xc3']
+           b'm 1 2\xc3', b'\xff' * 400, b'\xfe' * 401, b'm\xff ' + b'9' * 600]
 
 
 def _udp_invalid(mod, xi, pos, crlf):
@@ -204,7 +204,7 @@ def _entry_ok(raw):
   return (metric, (t, v))
 
 
-def _frame(mod, which, si):
+def _frame(mod, which, si, at=1):
   p = _mk(mod, 'pickle')
   A, B = ('a.first', (10, 1)), ('b.last', (20, 2))
   if which < len(EXC):
@@ -213,7 +213,8 @@ def _frame(mod, which, si):
     shape = pick(SHAPES, si)
     payload = shape
     if isinstance(shape, list):
-      payload = [A] + shape + [B]          # malformed entries between two good ones
+      payload = [A, B]
+      payload[at:at] = shape            # malformed entries before / between / after two good ones
     result = None
 
   class _U(object):
@@ -249,17 +250,18 @@ def _frame(mod, which, si):
   return not p.transport.disconnecting
 
 
-def C11_frame(which: int, si: int) -> bool:
+def C11_frame(which: int, si: int, at: int) -> bool:
   """
   pre: 0 <= which <= len(EXC)
   pre: 0 <= si < len(SHAPES)
+  pre: 0 <= at <= 2
   post: __return__
   """
-  return _frame(SHADOW, which, si)
+  return _frame(SHADOW, which, si, at)
 
 
-def replay_frame(which, si):
-  return _frame(real_protocols, which, si)
+def replay_frame(which, si, at):
+  return _frame(real_protocols, which, si, at)
 
 
 _ASSUME = ['carbon.protocols executed as a shadow module with log statements (and their message formatting) removed; replay on the real module',
@@ -281,8 +283,8 @@ HARNESSES = [
     encodes=['carbon.protocols:MetricLineReceiver.lineReceived', 'carbon.protocols:MetricDatagramReceiver.datagramReceived'],
     assumptions=_ASSUME + ['value / timestamp text from a table of %d literals (index symbolic), 4 field-count/whitespace templates, metric name m or µ (symbolic names: C01_parse / C11_line_bytes); '
                            'the malformed item sits between two fixed well-formed items (differential oracle: result == stream without it)' % len(NUMS)]),
-  H('C11_frame', quick=dict(timeout=280), covers=['unpickler_raised', 'entries', 'not_a_list'], replay='replay_frame',
+  H('C11_frame', quick=dict(timeout=280, shards=[('at%d' % k, 'at == %d' % k) for k in range(3)]), covers=['unpickler_raised', 'entries', 'not_a_list'], replay='replay_frame',
     encodes=['carbon.protocols:MetricPickleReceiver.stringReceived'],
     assumptions=_ASSUME + ['C pickle engine replaced by a stub: raises a symbolic choice of %d exception classes (those _pickle.c, find_class and the codecs can raise) '
-                           'or returns a symbolic choice of %d wrong-shaped payloads placed between two good entries' % (len(EXC), len(SHAPES))]),
+                           'or returns a symbolic choice of %d wrong-shaped payloads placed before / between / after two good entries' % (len(EXC), len(SHAPES))]),
 ]
